@@ -48,8 +48,11 @@ type c04prog struct {
 	// metadata, and with it the header length, differs. Whether such a process
 	// gets to record is not judged (the library refuses it); what it does to the
 	// file and to the other processes is.
-	Foreign int    `json:"foreign,omitempty"`
-	Base    uint64 `json:"base,omitempty"`
+	Foreign int `json:"foreign,omitempty"`
+	// NoLink: the file system has no hard links (every link call fails), so new
+	// files are initialised in place by whoever finds them short
+	NoLink bool   `json:"no_link,omitempty"`
+	Base   uint64 `json:"base,omitempty"`
 }
 
 type c04proc struct {
@@ -277,6 +280,11 @@ func c04Program(r *verifrt.Rand, kind int) c04prog {
 		p.Name = "concurrent-create"
 		p.Names = []string{"a/first", "b/second"}
 		p.NoWeekends = r.Intn(2) == 0
+		p.NoLink = !p.NoWeekends && r.Intn(2) == 0 // (the week-end setting has no safe in-place fallback)
+		if (kind/8)%4 == 1 {
+			// (the in-place pattern of the driver)
+			p.NoLink, p.NoWeekends = true, false
+		}
 	default:
 		p.Name = "mixed"
 		p.Names = append(vfCollidingNames(r, 2, 0), "plain/x", "big/"+strings.Repeat("M", 4000))
@@ -332,6 +340,10 @@ func runC04(res *verifrt.Result, base string, p c04prog, st c03strategy, rnd *ve
 	CounterTime = func() time.Time { return now }
 	munmap = func(d *mmap.Data) error { return e.q.Unmap(d.Data, "unmap") }
 	vfTrapExit()
+	if p.NoLink {
+		verifrt.SetPlan(&verifrt.Plan{NoLog: true, Faults: []*verifrt.Fault{{Op: "Link", Nth: -1, Errno: syscall.EPERM}}})
+		res.Hit("no-hard-links")
+	}
 	var ownBI *debug.BuildInfo
 	for pi := range p.Procs {
 		pr := &c04proc{f: &file{}, ctrs: map[int]*Counter{}, begun: map[int]uint64{}, done: map[int]uint64{}}
@@ -516,6 +528,7 @@ func vfPointClass(pt string) string {
 }
 
 func (e *c04env) close() {
+	verifrt.SetPlan(nil)
 	for i, pr := range e.procs {
 		if e.sched != nil && i < len(e.sched.Threads) && e.sched.Threads[i].Killed {
 			continue // a killed process never cleans up; its fds die with the batch child
@@ -613,6 +626,18 @@ func TestVerifC04(t *testing.T) {
 					st.Phases = append(st.Phases, verifrt.Phase{Thread: o, Until: -1})
 				}
 				r.Hit("creator-killed-pattern")
+			}
+			if p.Name == "concurrent-create" && (i/8)%4 == 1 {
+				// no hard links, so the file is initialised in place by every process that
+				// finds it short: one of them stops at its k-th point (all k: also between
+				// looking at the size and writing), the others create counters, it resumes
+				k := 1 + (i/32)%45
+				p.KillAt = make([]int, len(p.Procs))
+				st = c03strategy{Kind: "park", Phases: []verifrt.Phase{{Thread: 0, Until: k}}}
+				for o := 1; o < len(p.Procs); o++ {
+					st.Phases = append(st.Phases, verifrt.Phase{Thread: o, Until: -1})
+				}
+				r.Hit("in-place-init-pattern")
 			}
 			if p.Name == "colliding-big" && (i/7)%2 == 1 {
 				// one process links a record beyond everybody's mapping; the
@@ -720,7 +745,7 @@ func TestVerifC04(t *testing.T) {
 			e.close()
 		}
 	})
-	res.Require("creator-killed-pattern", "saturating-base-written", "program:saturating", "remap-twice-pattern", "program:colliding-big", "program:same-name", "program:colliding-names", "program:extend-race", "program:page-tail", "program:concurrent-create", "program:other-program", "other-program-refused", "schedule-with-kill", "strategy:pct", "strategy:park")
+	res.Require("creator-killed-pattern", "saturating-base-written", "program:saturating", "remap-twice-pattern", "program:colliding-big", "program:same-name", "program:colliding-names", "program:extend-race", "program:page-tail", "program:concurrent-create", "program:other-program", "other-program-refused", "no-hard-links", "in-place-init-pattern", "schedule-with-kill", "strategy:pct", "strategy:park")
 	if err := res.Write(); err != nil {
 		t.Fatal(err)
 	}
